@@ -38,6 +38,7 @@ func init() {
 		Controls: []core.Control{
 			{Name: "global-copied-on-import", File: "internal/wasm/store.go", Old: "\t\t\t\tm.Globals[i.IndexPerType] = importedGlobal\n", New: "\t\t\t\tcp := *importedGlobal\n\t\t\t\tm.Globals[i.IndexPerType] = &cp\n", Rule: "R04.1", Substr: "Globals"},
 			{Name: "table-type-unchecked", File: "internal/wasm/store.go", Old: "\t\t\t\tif expected.Type != importedTable.Type {\n\t\t\t\t\terr = errorInvalidImport(i, fmt.Errorf(\"table type mismatch: %s != %s\",\n\t\t\t\t\t\tRefTypeName(expected.Type), RefTypeName(importedTable.Type)))\n\t\t\t\t\treturn\n\t\t\t\t}\n", New: "", Rule: "R04.2", Substr: "table"},
+			{Name: "memory-shared-one-direction", File: "internal/wasm/store.go", Old: "if expected.IsShared != importedMemory.Shared {", New: "if importedMemory.Shared && !expected.IsShared {", Rule: "R04.2", Substr: "sharedness must be equal"},
 			{Name: "memory-shared-unchecked", File: "internal/wasm/store.go", Old: "\t\t\t\tif expected.IsShared != importedMemory.Shared {\n\t\t\t\t\terr = errorInvalidImport(i, fmt.Errorf(\"shared mismatch: %t != %t\",\n\t\t\t\t\t\texpected.IsShared, importedMemory.Shared))\n\t\t\t\t\treturn\n\t\t\t\t}\n", New: "", Rule: "R04.2", Substr: "memory"},
 			{Name: "global-mutability-unchecked", File: "internal/wasm/store.go", Old: "\t\t\t\tif expected.Mutable != importedGlobal.Type.Mutable {", New: "\t\t\t\tif false {", Rule: "R04.2", Substr: "global"},
 			{Name: "import-keepalive-dropped", File: "internal/wasm/store.go", Old: "\t\t\t\timportedTable.involvingModuleInstances = append(importedTable.involvingModuleInstances, m)\n", New: "", Rule: "R04.4", Substr: "import"},
@@ -51,6 +52,7 @@ func init() {
 }
 
 func runC04(c *core.Ctx) {
+	checkSharednessRelation(c, "R04.2")
 	c.SSA()
 	wp := c.Pkg("internal/wasm")
 	info := wp.TypesInfo
@@ -505,5 +507,67 @@ func runC04(c *core.Ctx) {
 			c.Check(len(bad) == 0 && n >= 5, "R04.8", "builtins act on the calling instance in "+core.FuncName(ep, loopFn), sw.Pos(), fmt.Sprintf("%d per-instance accesses in the exit-code arms, all through callerModuleInstance()", n),
 				"a Go-side builtin acts on the instance whose export was called from Go instead of the instance executing the instruction (they differ after a cross-module call): "+strings.Join(bad, "; "))
 		}
+	}
+}
+
+// ---- R04.2 (relation) memory sharedness must match exactly ----
+
+func checkSharednessRelation(c *core.Ctx, rule string) {
+	p := c.Pkg("internal/wasm")
+	info := p.TypesInfo
+	found := false
+	core.AllFuncDecls(p, func(fd *ast.FuncDecl) {
+		ast.Inspect(fd.Body, func(x ast.Node) bool {
+			is, ok := x.(*ast.IfStmt)
+			if !ok {
+				return true
+			}
+			// a condition that mentions the declared and the actual sharedness
+			var decl, act bool
+			ast.Inspect(is.Cond, func(y ast.Node) bool {
+				if se, ok := y.(*ast.SelectorExpr); ok {
+					if f := core.FieldOf(info, se); f != nil {
+						switch f.Name() {
+						case "IsShared":
+							decl = true
+						case "Shared":
+							act = true
+						}
+					}
+				}
+				return true
+			})
+			if !decl || !act {
+				return true
+			}
+			// only link-time checks: the branch yields an error
+			errs := false
+			ast.Inspect(is.Body, func(y ast.Node) bool {
+				if call, ok := y.(*ast.CallExpr); ok {
+					if f := core.Callee(info, call); f != nil && (f.Name() == "Errorf" || strings.Contains(strings.ToLower(f.Name()), "invalidimport")) {
+						errs = true
+					}
+				}
+				return true
+			})
+			if !errs {
+				return true
+			}
+			found = true
+			be, isBin := ast.Unparen(is.Cond).(*ast.BinaryExpr)
+			exact := false
+			if isBin && be.Op == token.NEQ {
+				fx, fy := core.FieldOf(info, be.X), core.FieldOf(info, be.Y)
+				if fx != nil && fy != nil && ((fx.Name() == "IsShared" && fy.Name() == "Shared") || (fx.Name() == "Shared" && fy.Name() == "IsShared")) {
+					exact = true
+				}
+			}
+			c.Check(exact, rule, "memory import: declared and actual sharedness must be equal in "+core.FuncName(p, fd), is.Pos(), "rejected when `declared != actual`",
+				"the link-time check is `"+core.ExprStr(is.Cond)+"`, which accepts one direction of the mismatch: a plain (movable) memory linked under a `shared` declaration makes the compiler skip the base reload after calls, so the importer writes through a stale base after the exporter grows")
+			return true
+		})
+	})
+	if !found {
+		c.Violate(rule, "memory import: declared and actual sharedness must be equal", 0, "no link-time check compares Memory.IsShared with MemoryInstance.Shared")
 	}
 }
